@@ -38,7 +38,8 @@ package main
 //	        metadata) = the other root members of T (omitted when there are none) — loki.ProcessLokiLogsIngestRequest
 //	otlp    protobuf; resource attributes = T + siglensIndexName, scope attributes = T, record attributes = T, body = M or T;
 //	        object → kvlist, array → array, integer token inside int64 → int, other numbers → double, null → EMPTY AnyValue
-//	        (an OTLP value kind the handler does not support: the whole record is refused — "rejected")
+//	        (the empty value is a legal OTLP value: it is stored as null = no field; before the repair c12-10 of
+//	        extractAnyValue the whole record was refused — "rejected", detector content/otlp-empty-value-rejected)
 //
 // The oracle's answer is the Lean SPEC lean/SigModel/Spec/Flatten.lean (flatten = ParseRawJsonObject's rules,
 // plus one envelope function per protocol).
@@ -981,7 +982,9 @@ func c16cExec(line string) Result {
 			continue
 		case got[p] == "rejected":
 			res.Tags = append(res.Tags, "rejected="+p)
-			if !(p == "otlp" && c16cHasNull(c.tree)) {
+			if p == "otlp" && c16cHasNull(c.tree) {
+				res.Fails = append(res.Fails, PropFail{Sig: "content/otlp-empty-value-rejected", Msg: "the event carries a null, sent as an AnyValue with no value set (the legal OTLP \"empty\" value): the whole log record was refused"})
+			} else {
 				res.Fails = append(res.Fails, PropFail{Sig: "content/" + p + "-valid-event-rejected", Msg: "a well-formed event was refused"})
 			}
 			continue
